@@ -46,8 +46,10 @@ func positions(n tree.Node, budget int) []uint64 {
 }
 
 func genC12(g *Gen, tier string, w *bufio.Writer) {
+	g.zHist = true // every third history under the zero-prefixed pair hash (summary roots must use the caller's hash)
+	defer func() { g.zHist = false }()
 	emit := func(t *Ty, v *Val, gs []uint64) {
-		fmt.Fprintln(w, "begin")
+		fmt.Fprintln(w, g.beginLine())
 		fmt.Fprintf(w, "mk r new %s %s\n", t, v)
 		var sb strings.Builder
 		for _, x := range gs {
